@@ -182,6 +182,25 @@ def hetero(ctx):
     return p
 
 
+def floats(ctx):
+    """TLC-enumerated shape classes of float texts (significant digits x decimal exponent x sign x digit pattern)."""
+    r = ctx.tlc("JsonWriterFloatGen", "JsonWriterFloatGen_quick.cfg" if ctx.quick else "JsonWriterFloatGen_full.cfg", workers=1, timeout=600)
+    if r.error or r.violated:
+        raise Infra("float class generation failed:\n" + r.out[-2000:])
+    seen, out = set(), []
+    for s in r.printed("FC"):
+        k = json.dumps(s, sort_keys=True)
+        if k not in seen:
+            seen.add(k)
+            out.append(s)
+    if len(out) < 100:
+        raise Infra("float class generation produced only %d classes" % len(out))
+    p = os.path.join(ctx.scratch, "floats.ndjson")
+    verif.write_ndjson(p, out)
+    ctx.cov["model_float_classes"] = len(out)
+    return p
+
+
 def main(ctx):
     # (a) design check of the writer machine + non-vacuity of Safe
     ctx.design("JsonWriter", "JsonWriter_quick.cfg" if ctx.quick else "JsonWriter_full.cfg", workers=4 if ctx.quick else 8,
@@ -191,10 +210,11 @@ def main(ctx):
     sp = shapes(ctx)
     tp = tables(ctx)
     hp = hetero(ctx)
+    fp = floats(ctx)
     wb = ctx.build("writers")
     cases = os.path.join(ctx.scratch, "cases.ndjson")
     with open(cases, "wb") as f:
-        ctx.run([wb, "gen", "-shapes", sp, "-tables", tp, "-hetero", hp, "-tier", ctx.tier, "-reps", "4" if ctx.quick else "8"], stdout=f)
+        ctx.run([wb, "gen", "-shapes", sp, "-tables", tp, "-hetero", hp, "-floats", fp, "-tier", ctx.tier, "-reps", "4" if ctx.quick else "8"], stdout=f)
     # (c) run and judge
     recs = judge(ctx, cases)
     for r in recs:
